@@ -56,15 +56,29 @@ MEMBER_TYPE = {"h": "T0", "m0": "T0", "m1": "T1", "m2": "T2", "mm": "T3"}
 _S = {}
 
 
+def _variant(version, abstract):
+    """the element 'abstract' flags feed state derived at build time (XsdElement.substitutes), so they are varied through
+    the schema TEXT (one build per variant, outside the tracer), not by overwriting live components"""
+    key = (version, tuple(sorted(abstract)))
+    if key not in _S:
+        cls = xmlschema.XMLSchema10 if version == "1.0" else xmlschema.XMLSchema11
+        text = _XSD
+        for name in abstract:
+            text = text.replace('<xs:element name="%s" ' % name, '<xs:element name="%s" abstract="true" ' % name)
+        s = cls(text)
+        s.maps.cache.enabled = False
+        _S[key] = s
+    return _S[key]
+
+
 def configure(cfg):
     CFG["fixed"] = {}
+    CFG["abstract"] = []
     CFG.update(cfg)
     v = CFG["version"]
+    _variant(v, CFG["abstract"])
     if v not in _S:
-        cls = xmlschema.XMLSchema10 if v == "1.0" else xmlschema.XMLSchema11
-        s = cls(_XSD)
-        s.maps.cache.enabled = False
-        _S[v] = s
+        _S[v] = _variant(v, [])
 
 
 def _a(kw, name):
@@ -81,7 +95,7 @@ def _fill(elem, ci):
 
 def pre_idx(fn, **kw):
     lim = {"eb": len(EBLOCKS), "tb": len(BLOCKS), "xt": len(XSITYPES), "ct": len(CONTENTS), "ab": 6, "mb": len(MEMBERS), "hab": 2, "mab": 2,
-           "nil": 5, "txt": 5, "el": 3, "kk": 4}
+           "nil": 5, "txt": 5, "el": 3, "kk": 4, "iab": 2}
     for k, v in kw.items():
         if not (0 <= v < lim[k]):
             return False
@@ -91,7 +105,7 @@ def pre_idx(fn, **kw):
 def h_xsitype(**kw) -> bool:
     """element e (declared type T0) with xsi:type: valid iff the type exists, is derived from T0 by a chain none of whose
     steps is blocked by the element or by T0, is not abstract, and the content is valid for it"""
-    s = _S[CFG["version"]]
+    s = _variant(CFG["version"], [])
     e = s.elements["e"]
     eblock = BLOCKS[pick(_a(kw, 'eb'), len(BLOCKS))]
     tblock = BLOCKS[pick(_a(kw, 'tb'), len(BLOCKS))]
@@ -123,34 +137,30 @@ def h_xsitype(**kw) -> bool:
 
 def h_subst(**kw) -> bool:
     """<p> contains one child in place of head h: a member is accepted iff substitution is not blocked on the head, the
-    member is not abstract, and no derivation step from the member's type to the head's type is blocked"""
-    s = _S[CFG["version"]]
+    member is not abstract, and no derivation step from the member's type to the head's type is blocked; an abstract
+    INTERMEDIATE member does not hide the members of its own group"""
+    s = _variant(CFG["version"], CFG["abstract"])
     h = s.elements["h"]
     hblock = EBLOCKS[pick(_a(kw, 'eb'), len(EBLOCKS))]
     tblock = BLOCKS[pick(_a(kw, 'tb'), len(BLOCKS))]
     member = MEMBERS[pick(_a(kw, 'mb'), len(MEMBERS))]
-    head_abstract = bool(pick(_a(kw, 'hab'), 2))
-    member_abstract = bool(pick(_a(kw, 'mab'), 2))
     ci = pick(_a(kw, 'ct'), len(CONTENTS))
-    m = s.elements[member]
-    old = (h._block, s.types["T0"]._block, h.abstract, m.abstract)
-    h._block, s.types["T0"]._block, h.abstract = hblock, tblock, head_abstract
-    if member != "h":
-        m.abstract = member_abstract
+    old = (h._block, s.types["T0"]._block)
+    h._block, s.types["T0"]._block = hblock, tblock
     try:
         root = ET.Element('p')
         child = ET.SubElement(root, member)
         _fill(child, ci)
         errors = list(s.iter_errors(root))
     finally:
-        h._block, s.types["T0"]._block, h.abstract = old[0], old[1], old[2]
-        m.abstract = old[3]
+        h._block, s.types["T0"]._block = old
     mtype = MEMBER_TYPE[member]
+    is_abstract = member in CFG["abstract"]
     if member == "h":
-        want = (not head_abstract) and CONTENT_OK["T0"][ci]
+        want = (not is_abstract) and CONTENT_OK["T0"][ci]
     else:
         blocked = set((hblock + " " + tblock).split())
-        want = ("substitution" not in blocked) and not member_abstract and \
+        want = ("substitution" not in blocked) and not is_abstract and \
             not any(step in blocked for step in CHAIN[mtype]) and CONTENT_OK[mtype][ci]
     return (not errors) == want
 
@@ -161,7 +171,7 @@ TEXTS = [None, "", "1", "1.00", "2"]
 
 def h_nil_fixed(**kw) -> bool:
     """xsi:nil='true' only on nillable elements with empty content and no fixed value; fixed values compare in value space"""
-    s = _S[CFG["version"]]
+    s = _variant(CFG["version"], [])
     name = ["n", "f", "nf"][pick(_a(kw, 'el'), 3)]
     nilv = NILS[pick(_a(kw, 'nil'), len(NILS))]
     text = TEXTS[pick(_a(kw, 'txt'), len(TEXTS))]
@@ -272,11 +282,12 @@ def obligations(tier, seed):
                         "bound": "type block x 9 xsi:type names x 4 contents" + ("" if quick else " x abstract type choice")})
         out.append({"name": "xsitype-abstract/%s" % version, "fn": "h_xsitype", "pre": "pre_idx", "args": [["xt", "int"], ["ab", "int"]],
                     "config": {"version": version, "fixed": {"eb": 0, "tb": 0, "ct": 1}}, "timeout": 400, "twin_timeout": 30, "bound": "9 xsi:type names x abstract type choice"})
-        for eb in range(len(EBLOCKS)):
-            out.append({"name": "subst/%s/hblock=%s" % (version, EBLOCKS[eb].replace(' ', '+') or 'none'), "fn": "h_subst", "pre": "pre_idx",
-                        "args": [["tb", "int"], ["mb", "int"], ["mab", "int"], ["ct", "int"]] + ([] if quick else [["hab", "int"]]),
-                        "config": {"version": version, "fixed": {"eb": eb}}, "timeout": 500 if quick else 3000, "twin_timeout": 30,
-                        "bound": "type block x 5 members x member abstract" + ("" if quick else " x head abstract x contents")})
+        for abstract in ([], ["h"], ["m1"], ["mm"], ["m1", "m2"], ["h", "m1"]):
+            for eb in (range(len(EBLOCKS)) if (not quick or not abstract) else (0, 1)):
+                out.append({"name": "subst/%s/abstract=%s/hblock=%s" % (version, '+'.join(abstract) or 'none', EBLOCKS[eb].replace(' ', '+') or 'none'),
+                            "fn": "h_subst", "pre": "pre_idx", "args": [["tb", "int"], ["mb", "int"], ["ct", "int"]],
+                            "config": {"version": version, "fixed": {"eb": eb}, "abstract": abstract}, "timeout": 500 if quick else 3000, "twin_timeout": 30,
+                            "bound": "type block x 5 members (one level, two levels) x 4 contents; abstract elements %r set in the schema text" % (abstract,)})
         out.append({"name": "nil-fixed/%s" % version, "fn": "h_nil_fixed", "pre": "pre_idx", "args": [["el", "int"], ["nil", "int"], ["txt", "int"]],
                     "config": {"version": version}, "timeout": 400, "twin_timeout": 30, "bound": "3 elements x 5 xsi:nil values x 5 contents"})
     out.append({"name": "alternatives/1.1", "fn": "h_alt", "pre": "pre_idx", "args": [["kk", "int"], ["ct", "int"]],
